@@ -1,5 +1,6 @@
-(* Every leaf is handed exactly the rectangle the layout tree records for it: the surface a probe
-   leaf receives is the window obtained by cutting, from the root surface down, the (position, size)
+(* Every leaf is handed exactly the rectangle the layout tree records for it: the surface a leaf
+   of ANY kind (text, str, fill, image, glyph, scroll bar, surface, half-block image, probe)
+   receives is the window obtained by cutting, from the root surface down, the (position, size)
    rectangle of every layout node on its path (clipped, as Layout::apply_to does) -- stated in the
    plain-matrix window algebra of C07.  FindPath only follows children whose rectangle contains the
    position. *)
@@ -29,6 +30,16 @@ Qed.
 Fixpoint paints (glyphs : bool) (v : vtree) (t : ltree) (w : window) {struct v} : list (N * window) :=
   match v with
   | VProbe id _ _ => [(id, win_apply w t)]
+  | VText _ _ => [((LEAF_TAG + 1)%N, win_apply w t)]
+  | VStr _ => [((LEAF_TAG + 2)%N, win_apply w t)]
+  | VScrollBar d _ _ _ _ =>
+      (* a scroll bar whose layout has no extent along its axis returns before touching the surface *)
+      if (major d (l_hh t) (l_ww t) =? 0)%N then [] else [((LEAF_TAG + 6)%N, win_apply w t)]
+  | VFill _ => [((LEAF_TAG + 10)%N, win_apply w t)]
+  | VImage _ _ _ => [((LEAF_TAG + 12)%N, win_apply w t)]
+  | VGlyph _ _ _ _ => [((LEAF_TAG + 13)%N, win_apply w t)]
+  | VSurface _ _ _ => [((LEAF_TAG + 15)%N, win_apply w t)]
+  | VImageAscii _ _ _ => [((LEAF_TAG + 16)%N, win_apply w t)]
   | VFlex _ _ cs =>
       let sub := win_apply w t in
       (fix go (cs : list fchild) (ks : list ltree) {struct cs} : list (N * window) :=
@@ -76,10 +87,17 @@ Section Paint.
   Lemma nolog s : exists L, r_log s = r_log s ++ L /\ LogRel L [].
   Proof. exists []. rewrite app_nil_r. split; [reflexivity|constructor]. Qed.
 
-  Lemma lift_nolog (o : outcome (list ccell)) s s' : (let* d := o in Ok (mkR d (r_log s))) = Ok s' ->
-    exists L, r_log s' = r_log s ++ L /\ LogRel L [].
+  Lemma onelog s d k sub wsub : Rep H W sub wsub ->
+    exists L, r_log (logged s d k sub) = r_log s ++ L /\ LogRel L [((LEAF_TAG + k)%N, wsub)].
   Proof.
-    destruct o as [d| | |]; cbn; try discriminate. intros [= <-]. cbn. apply nolog.
+    intros R. exists [((LEAF_TAG + k)%N, sub)]. split; [reflexivity|]. constructor; [|constructor]. split; [reflexivity|exact R].
+  Qed.
+
+  Lemma lift_log (o : outcome (list ccell)) s s' k sub wsub : Rep H W sub wsub ->
+    (let* d := o in Ok (logged s d k sub)) = Ok s' ->
+    exists L, r_log s' = r_log s ++ L /\ LogRel L [((LEAF_TAG + k)%N, wsub)].
+  Proof.
+    intros R. destruct o as [d| | |]; cbn [bind]; try discriminate. intros [= <-]. now apply onelog.
   Qed.
 
   (* a completed pass keeps the slice long enough *)
@@ -145,8 +163,8 @@ Section Paint.
   Proof.
     induction v using vtree_rect; intros t sh w s s' Hrep Hlen E; cbn [render paints] in *;
       pose proof (rep_apply_win H W sh w t Hmax Hrep) as Rsub.
-    - eapply lift_nolog; eauto.
-    - eapply lift_nolog; eauto.
+    - eapply lift_log; eauto.
+    - eapply lift_log; eauto.
     - apply (flex_fold_log d (apply_to sh t) (win_apply w t) Rsub cs (l_kids t) s s'); auto.
     - (* container *)
       destruct (if face_is_default fc then _ else _) as [d1| | |] eqn:Ee; try discriminate. cbn [bind] in E.
@@ -161,7 +179,7 @@ Section Paint.
       + destruct (of_opt 1012 _) as [d1| | |] eqn:Ef; try discriminate. cbn [bind] in E.
         assert (Hlen1 : H * W <= length d1).
         { destruct (fill_with_safe H W (apply_to sh t) (win_apply w t) (r_data s)
-                      (fun r c old => frame_cell color (sh_width (apply_to sh t)) (sh_height (apply_to sh t)) c r old) Rsub Hlen)
+                      (fun r c old => frame_cell (v_frag vc) color (sh_width (apply_to sh t)) (sh_height (apply_to sh t)) c r old) Rsub Hlen)
             as (d' & Ed & [Ld _]). rewrite Ed in Ef. injection Ef as <-. lia. }
         destruct (l_kids t) as [|k ks]; [discriminate|].
         destruct (IHv k (apply_to sh t) (win_apply w t) (mkR d1 (r_log s)) s' Rsub Hlen1 E) as (L & EL & RL).
@@ -169,24 +187,24 @@ Section Paint.
       + destruct (IHv t sh w s s' Hrep Hlen E) as (L & EL & RL). exists L. rewrite Hg in RL. auto.
     - (* scroll bar *)
       destruct (major d (l_hh t) (l_ww t) =? 0)%N; [injection E as <-; apply nolog|].
-      destruct (scroll_thumb _ _ _ _) as [size offset]. eapply lift_nolog; eauto.
+      destruct (scroll_thumb _ _ _ _) as [size offset]. eapply lift_log; eauto.
     - destruct (l_kids t) as [|k ks]; [discriminate|].
       destruct (IHv k (apply_to sh t) (win_apply w t) s s' Rsub Hlen E) as (L & EL & RL). exists L. auto.
     - injection E as <-. apply nolog.
     - destruct (l_data t) as [| |c|]; try discriminate. destruct (l_kids t) as [|k ks]; [discriminate|].
       destruct (H0 c k (apply_to sh t) (win_apply w t) s s' Rsub Hlen E) as (L & EL & RL). exists L. auto.
-    - eapply lift_nolog; eauto.
+    - eapply lift_log; eauto.
     - injection E as <-. apply nolog.
-    - destruct (get _ _ 0 0); [|injection E as <-; apply nolog].
-      destruct (image_cells vc _ _) as [h' w']. injection E as <-. cbn. apply nolog.
+    - destruct (get _ _ 0 0); [|injection E as <-; now apply onelog].
+      destruct (image_cells vc _ _) as [h' w']. injection E as <-. now apply onelog.
     - destruct (has_glyphs (v_r vc)).
-      + destruct (get _ _ 0 0); injection E as <-; cbn; apply nolog.
-      + eapply lift_nolog; eauto.
+      + destruct (get _ _ 0 0); injection E as <-; now apply onelog.
+      + eapply lift_log; eauto.
     - (* probe *)
       destruct (fill_cells _ _ _) as [d1| | |]; try discriminate. cbn [bind] in E. injection E as <-. cbn.
       exists [(id, apply_to sh t)]. split; [reflexivity|]. constructor; [|constructor]. split; [reflexivity|exact Rsub].
-    - eapply lift_nolog; eauto.
-    - eapply lift_nolog; eauto.
+    - eapply lift_log; eauto.
+    - eapply lift_log; eauto.
     - injection E as <-. apply nolog.
     - destruct (l_data t); try (injection E as <-; apply nolog).
       destruct (l_kids t) as [|k ks]; [discriminate|].
